@@ -10,6 +10,14 @@ CLAIMED = {
          "Exploration: every at_length/at_fraction/iter/at_front/at_back call on thousands of generated 2D/3D polylines (9 layout families x 4 closure modes x scales 1e-3..1e3) is judged against a station recomputed from the stored vertices; probes include 0, L, every stored vertex length and one ulp either side. Held on what was observed; no claim about inputs the generators do not reach.",
          "Trusts the public accessors points()/lengths()/is_closed(), f64 arithmetic of the harness oracle, tolerance 1e-10*(extent+L)+1e3*u*offset. Direction clauses are not judged at vertices whose adjacent edges are exactly antiparallel (normalised sum undefined).",
          "3 / C01"),
+ "C02": ("runtime monitor: exhaustive-scan (brute force over every edge / triangle) reference for closest-point, capped and angle-filtered queries",
+         "Exploration: each dist_to_point / at_closest_to_point / point_closest_to / surf_closest_to / project_with_max_dist / project_with_tol / indices_in_tol / measure_point_deviation call on generated polylines (2..5000 edges) and meshes (12..50k faces; box, prism, tube, icosphere, torus, strips, height fields, nested shells) is compared with an exhaustive scan; queries on vertices, edges, faces, constructed equidistant points, near, far, inside. Held on what was observed.",
+         "Trusts harness-side segment/Ericson triangle distance; tolerance 1e-9*extent+1e3*u*offset; caps and angle thresholds within a guard band are not judged (counted); the normal clause accepts the normal of any face containing the returned point. Thorough tier adds Miri and AddressSanitizer passes over the same workload (parry QBVH, SIMD emulation).",
+         "3 / C02"),
+ "C03": ("runtime monitor: metamorphic twin execution in a rigidly moved frame",
+         "Exploration: every measurement is executed twice, in frame A and in frame B = T*A for random isometries (any axis/angle incl. exact 0, +-pi/2, pi, translations to 1e3); scalars must agree and geometric results must be related by T; round trips and compositions included. Entities: surface points, segments, planes, 2D/3D curves, meshes, point clouds, distances, point slices.",
+         "Equivariance of closest points/stations is judged only where the arg-min is unique (single element strictly inside); tolerance 1e-9*extent + 1e3*u*(offset+|t|); normal/direction tolerances scale with u*offset/element size.",
+         "3 / C03"),
 }
 
 def main():
